@@ -66,17 +66,23 @@ const BATCH: usize = 512;
 
 /// Structured wide values for an alignment/shift of 2^k: `h*2^k + e` for boundary and seeded h and
 /// small / half-way / seeded e, values next to the word boundaries and seeded random words.
-fn structured(rng: &mut Rng, k: usize, nrand: usize) -> Vec<usize> {
+fn structured(rng: &mut Rng, k: usize, nrand: usize, dense: bool) -> Vec<usize> {
     let mut v: Vec<usize> = vec![];
     let a = 1usize.wrapping_shl(k as u32);
     let top = if k == 0 { usize::MAX } else { (1usize << (64 - k)) - 1 };
-    let mut hs: Vec<usize> = vec![0, 1, 2, 3, top / 2, top / 2 + 1, top.wrapping_sub(1), top];
-    for _ in 0..4 {
+    let mut hs: Vec<usize> = vec![0, 1, top / 2, top.wrapping_sub(1), top];
+    if dense {
+        hs.extend([2, 3, top / 2 + 1]);
+    }
+    for _ in 0..(if dense { 4 } else { 1 }) {
         hs.push(rng.next() as usize & top);
     }
     let half = a >> 1;
-    let mut es: Vec<usize> = vec![0, 1, 2, a.wrapping_sub(1), a.wrapping_sub(2), half, half.wrapping_sub(1), half.wrapping_add(1)];
-    for _ in 0..3 {
+    let mut es: Vec<usize> = vec![0, 1, a.wrapping_sub(1), half, half.wrapping_add(1)];
+    if dense {
+        es.extend([2, a.wrapping_sub(2), half.wrapping_sub(1)]);
+    }
+    for _ in 0..(if dense { 3 } else { 1 }) {
         es.push(rng.next() as usize & a.wrapping_sub(1));
     }
     for h in &hs {
@@ -84,10 +90,11 @@ fn structured(rng: &mut Rng, k: usize, nrand: usize) -> Vec<usize> {
             v.push(h.wrapping_mul(a).wrapping_add(*e));
         }
     }
-    for j in 0..24usize {
+    let nb = if dense { 24usize } else { 8 };
+    for j in 0..nb {
         v.push(usize::MAX - j);
-        v.push((1usize << 63).wrapping_add(j).wrapping_sub(12));
-        v.push((1usize << 32).wrapping_sub(12).wrapping_add(j));
+        v.push((1usize << 63).wrapping_add(j).wrapping_sub(nb / 2));
+        v.push((1usize << 32).wrapping_sub(nb / 2).wrapping_add(j));
     }
     for _ in 0..nrand {
         let r = rng.next() as usize;
@@ -369,7 +376,8 @@ pub fn run() {
     let lowk = parse_list(&arg_or("lowk", "0,1,2,3,6,12"));
     // number of seeded high parts at which the low 12 bits are enumerated again (wide rows)
     let nhighs = arg_u64("highs", 0) as usize;
-    let nrand = arg_u64("rand", 32) as usize;
+    let nrand = arg_u64("rand", 8) as usize;
+    let dense = flag("dense");
     let aa_highs = arg_u64("aahighs", 1) as usize;
     let part = arg_or("part", "all");
     let mut rng = Rng::new(seed_from_env());
@@ -407,7 +415,7 @@ pub fn run() {
                 row_rs(&trace, k, c);
             }
             // (b) structured wide values
-            let vs = structured(&mut rng, k, nrand);
+            let vs = structured(&mut rng, k, nrand, dense);
             for c in vs.chunks(BATCH) {
                 row_ra(&trace, k, c);
                 row_rs(&trace, k, c);
@@ -429,14 +437,14 @@ pub fn run() {
         for h in &highs {
             wide.extend((0..4096usize).map(|l| h.wrapping_add(l)));
         }
-        wide.extend(structured(&mut rng, 12, nrand));
-        wide.extend(structured(&mut rng, 22, nrand));
-        wide.extend(structured(&mut rng, 3, nrand));
+        wide.extend(structured(&mut rng, 12, nrand, dense));
+        wide.extend(structured(&mut rng, 22, nrand, dense));
+        wide.extend(structured(&mut rng, 3, nrand, dense));
         for c in wide.chunks(BATCH) {
             row_pg(&trace, c);
         }
         let mut idx: Vec<usize> = (0..512).collect();
-        idx.extend(structured(&mut rng, 0, nrand));
+        idx.extend(structured(&mut rng, 0, nrand, dense));
         for j in 0..40usize {
             idx.push((1usize << 52) - 20 + j);
             idx.push((1usize << 42) - 20 + j);
